@@ -696,6 +696,25 @@ def dict_forms_stream(ctx, res):
             pass
         except Exception as e:  # noqa
             res.violate("C17:dict-differs:update-keywords", "`typed.update(m1, m2)` raised %s, the built-in raises TypeError" % type(e).__name__, case)
+        # == / != between typed dicts and against other mappings: what the built-in dict answers for the same entries
+        import collections
+        import types
+        b.d = dict(builtin)
+        a.e = dict(builtin)
+        other_entries = dict(builtin, extra=99)
+        for label, left, right, want in (("two configurations, same entries", lambda: a.d, lambda: b.d, True), ("two fields of one configuration, same entries", lambda: a.d, lambda: a.e, True),
+                                         ("MappingProxyType, same entries", lambda: a.d, lambda: types.MappingProxyType(dict(builtin)), True),
+                                         ("UserDict, same entries", lambda: a.d, lambda: collections.UserDict(builtin), True),
+                                         ("two configurations, different entries", lambda: a.d, lambda: other_entries, False), ("a list of pairs", lambda: a.d, lambda: list(builtin.items()), False)):
+            res.case(stable(["dict-eq", label, required]), kind="dict-forms:eq")
+            try:
+                l, r = left(), right()
+                got = (l == r, l != r, r == l)
+            except Exception as e:  # noqa
+                got = "raised %s" % type(e).__name__
+            if got != (want, not want, want):
+                res.violate("C17:dict-differs:equality", "`typed == other` / `!=` do not answer what the built-in dict answers for the same entries (%s)" % label,
+                            dict(case, operands=label, got=got, builtin=[want, not want, want]))
         # setdefault(existing key): the entry that is there, untouched, whatever the (absent) default
         res.case(stable(["setdefault-present", required]), kind="dict-forms:setdefault")
         for form, call in (("setdefault(k)", lambda d: d.setdefault("x")), ("setdefault(k, None)", lambda d: d.setdefault("x", None)), ("setdefault(k, 5)", lambda d: d.setdefault("x", 5))):
